@@ -22,7 +22,16 @@ type vfLsEntry struct {
 	Size  int64
 	Perm  uint32
 	Mtime int64
+	Ext   []vfExt `json:",omitempty"` // extended attributes reported by the lister (request server)
 }
+
+// vfMemInfoExt is a listed entry that also reports extended attributes.
+type vfMemInfoExt struct {
+	vfMemInfo
+	ext []vfExt
+}
+
+func (i vfMemInfoExt) Extended() []sftp.StatExtended { return vfStatExt(i.ext) }
 
 type vfCaseC16 struct {
 	Kind    string // rs | os
@@ -82,6 +91,9 @@ func vfGenC16(t *rapid.T) vfCaseC16 {
 			Perm: uint32(rapid.SampledFrom([]int{0o644, 0o600, 0o755, 0o4711, 0o1777, 0}).Draw(t, "perm")), Mtime: int64(rapid.SampledFrom([]int{0, 1, 1000000000, 1700000000, 2000000000}).Draw(t, "mtime"))}
 		if c.Kind == "rs" {
 			e.Size = int64(vfGenU64(t, "bigsize") >> 1)
+			if rapid.IntRange(0, 3).Draw(t, "hasext") == 0 {
+				e.Ext = vfGenExts(t, "ext", 3)
+			}
 		}
 		c.Entries = append(c.Entries, e)
 	}
@@ -112,7 +124,12 @@ func vfRunC16(ctx *vfCtx, c vfCaseC16) {
 		h.listEOF, h.listShort = c.EOFMode, c.Short
 		var fis []os.FileInfo
 		for _, e := range c.Entries {
-			fis = append(fis, vfMemInfo{name: string(e.Name), size: e.Size, mode: vfRefToFileMode(0o100000 | e.Perm), mtime: e.Mtime, uid: 7, gid: 8})
+			mi := vfMemInfo{name: string(e.Name), size: e.Size, mode: vfRefToFileMode(0o100000 | e.Perm), mtime: e.Mtime, uid: 7, gid: 8}
+			if len(e.Ext) > 0 {
+				fis = append(fis, vfMemInfoExt{mi, e.Ext})
+			} else {
+				fis = append(fis, mi)
+			}
 		}
 		h.listOverride = map[string][]os.FileInfo{"/d": fis}
 		// Lstat/Stat of the listed names (Walk and Glob ask for them)
@@ -179,6 +196,9 @@ func vfRunC16(ctx *vfCtx, c vfCaseC16) {
 				a := fmt.Sprintf("size=%d perm=%o mtime=%d", fi.Size(), vfRefFromFileMode(fi.Mode())&0o7777, fi.ModTime().Unix())
 				if st, ok := fi.Sys().(*sftp.FileStat); ok && c.Kind == "rs" {
 					a += fmt.Sprintf(" uid=%d gid=%d", st.UID, st.GID)
+					for _, x := range st.Extended {
+						a += fmt.Sprintf(" ext(%q=%q)", x.ExtType, x.ExtData)
+					}
 				}
 				got = append(got, ent{fi.Name(), a})
 			}
@@ -224,6 +244,9 @@ func vfRunC16(ctx *vfCtx, c vfCaseC16) {
 				a = fmt.Sprintf("size=%d perm=%o mtime=%d", e.Size, e.Perm, e.Mtime)
 				if c.Kind == "rs" {
 					a += " uid=7 gid=8"
+					for _, x := range e.Ext {
+						a += fmt.Sprintf(" ext(%q=%q)", x.Name, x.Data)
+					}
 				}
 			}
 			want = append(want, ent{s, a})
